@@ -140,6 +140,12 @@ def read_segment():
 
 
 def kill(p):
+    # the whole process group when the child leads one (a tracer and its tracee)
+    try:
+        if os.getpgid(p.pid) == p.pid:
+            os.killpg(p.pid, signal.SIGKILL)
+    except OSError:
+        pass
     if p.poll() is None:
         p.send_signal(signal.SIGKILL)
     try:
@@ -184,9 +190,22 @@ def c19(binary, out, rates):
         if r.endswith("+json"):
             r = r[:-5]
             extra = ["--json-output"]
-        args = ([binary] if r == "omit" else [binary, "--max-drift-rate", r]) + extra
+        life = None
+        if "+life" in r:
+            # "<rate>+life<SIG>": a chronyd stand-in answers; the daemon runs for a few seconds,
+            # receives the signal after 1.6 s, and the segment is sampled every 10 ms throughout
+            r, life = r.split("+life", 1)
+        wrap = []
+        if r.endswith("+slowspawn"):
+            # the thread that spawns the daemon's threads is held back 300 ms after each spawn
+            r = r[:-10]
+            wrap = ["strace", "-f", "-o", "/dev/null", "-e", "trace=clone,clone3", "-e", "inject=clone,clone3:delay_exit=300000"]
+        args = wrap + ([binary] if r == "omit" else [binary, "--max-drift-rate", r]) + extra
+        if life is not None:
+            results.append(c19_life(args, spec, life))
+            continue
         t0 = time.monotonic()
-        p = subprocess.Popen(args, stdout=subprocess.DEVNULL, stderr=subprocess.PIPE)
+        p = subprocess.Popen(args, stdout=subprocess.DEVNULL, stderr=subprocess.PIPE, start_new_session=bool(wrap))
         seg = None
         rc = None
         while time.monotonic() - t0 < 8.0:
@@ -208,6 +227,41 @@ def c19(binary, out, rates):
         err = p.stderr.read().decode(errors="replace")[-300:] if p.stderr else ""
         results.append({"rate": spec, "published": seg.hex() if seg else None, "exit_code": rc, "alive_when_observed": alive, "waited_s": round(waited, 3), "stderr_tail": err if not seg else ""})
     json.dump(results, open(out, "w"))
+
+
+def c19_life(args, spec, signame):
+    chronyd = FakeChronyd("answer")
+    chronyd.start()
+    p = subprocess.Popen(args, stdout=subprocess.DEVNULL, stderr=subprocess.PIPE)
+    t0 = time.monotonic()
+    drifts = {}
+    statuses = {}
+    first = None
+    signalled = False
+    samples = 0
+    while time.monotonic() - t0 < 4.2:
+        now = time.monotonic() - t0
+        if not signalled and now >= 1.6 and signame:
+            signalled = True
+            if p.poll() is None:
+                p.send_signal(getattr(signal, signame))
+        seg = read_segment()
+        if seg:
+            samples += 1
+            d, = struct.unpack_from("=I", seg, 56)
+            st, = struct.unpack_from("=i", seg, 64)
+            drifts[d] = drifts.get(d, 0) + 1
+            statuses[st] = statuses.get(st, 0) + 1
+            if first is None:
+                first = seg
+        time.sleep(0.01)
+    rc = p.poll()
+    alive = rc is None
+    kill(p)
+    chronyd.stop = True
+    err = p.stderr.read().decode(errors="replace")[-300:] if p.stderr else ""
+    return {"rate": spec, "published": first.hex() if first else None, "exit_code": rc, "alive_when_observed": alive, "waited_s": 4.2, "stderr_tail": err if not first else "",
+            "life": {"signal": signame, "samples": samples, "drift_values_seen": {str(k): v for k, v in drifts.items()}, "statuses_seen": {str(k): v for k, v in statuses.items()}, "chronyd_requests": chronyd.requests, "alive_at_end": alive}}
 
 
 def run_plan(binary, plan):
